@@ -55,9 +55,9 @@ func runC37(c *Ctx) {
 func c37carrier(c *Ctx, m *Module) {
 	rule := "carrier-first-match"
 	type scan struct {
-		rs   *ast.RangeStmt
-		ifs  *ast.IfStmt
-		f    *Func
+		rs  *ast.RangeStmt
+		ifs *ast.IfStmt
+		f   *Func
 	}
 	get := c.NeedFunc(m, "kotel.RecordCarrier.Get")
 	set := c.NeedFunc(m, "kotel.RecordCarrier.Set")
